@@ -41,9 +41,9 @@ TRUSTED = [
 ASSUMPTIONS = [
     "coordinates and data values are small integers so that float comparison is exact",
     "objects are Points, Curve or Surface with float / integer / referenced / boolean / per-element text children",
-    "per-element text data: arrays are never shorter than the element count, keep at least two entries and are not copied "
-    "without dropping an element (text data are not padded, a one-entry array reads back as a scalar, an empty one cannot be "
-    "written, Data.copy of an undiminished str array raises: observed, listed in notes/C07.md, outside the generated scope)",
+    "per-element text data are generated without steering (short arrays, one-entry arrays, copies that drop nothing, removals "
+    "that empty them: four recorded findings); only assigning / adding an empty text array is not generated; a history stops "
+    "when a one-entry text array has come back from the file as a scalar",
     "clear_cache=False; vertices are never grown through the vertices setter; an explicit cell_mask given with a vertex mask "
     "only keeps cells inside that mask",
     "a history stops after an operation that fails leaving changed state, or once a data array has become empty "
